@@ -11,6 +11,7 @@ EXTENDS Integers, Sequences, FiniteSets, TLC, Json
 
 CONSTANTS Ns,       \* numbers of stored curves to explore, e.g. 1..5
           MaxQ,     \* length of the query sequence
+          WithRecompute,  \* BOOLEAN : histories may replace the family (compute_g_functions) between queries
           Fixed     \* {"F28"} : the table always extrapolates (repaired); unrepaired it keeps the setting of the first query
 
 \* query classes relative to the stored heights
@@ -21,8 +22,9 @@ BelowTol == {"below_tol"}                             \* 1e-6 .. 1e-3 below the 
 Far      == {"below_far", "above_far"}
 Queries  == Stored \cup Snapped \cup Inside \cup BelowTol \cup Far
 
-VARIABLES n, cache, qs, outs
-vars == <<n, cache, qs, outs>>
+\* gen : how often BaseGHE.compute_g_functions replaced the family; cgen : the generation the cached table was built from
+VARIABLES n, cache, qs, outs, gen, cgen, ns   \* ns[i] : the number of stored curves when query i was asked
+vars == <<n, cache, qs, outs, gen, cgen, ns>>
 
 Kind(k) == IF k >= 5 THEN "cubic" ELSE IF k >= 3 THEN "quadratic" ELSE IF k = 2 THEN "linear" ELSE "stored"
 InRangeByCode(q) == q \notin Far
@@ -37,22 +39,31 @@ Outcome(k, q, c) ==
        ELSE IF table = "extrap" THEN "extrap"                      \* outside the knots: needs an extrapolating table
        ELSE "ValueError"                                           \* interp1d without extrapolation refuses (also for below_tol!)
 
-Init == n \in Ns /\ cache = "none" /\ qs = <<>> /\ outs = <<>>
+Init == n \in Ns /\ cache = "none" /\ qs = <<>> /\ outs = <<>> /\ gen = 0 /\ cgen = 0 /\ ns = <<>>
 Ask(q) == /\ Len(qs) < MaxQ /\ (q = "mid_stored" => n >= 3) /\ (n = 1 => q \notin {"mid_stored", "inside"})
-          /\ qs' = Append(qs, q) /\ outs' = Append(outs, Outcome(n, q, cache))
+          /\ qs' = Append(qs, q) /\ ns' = Append(ns, n)
+          /\ outs' = Append(outs, IF n > 1 /\ cache # "none" /\ cgen # gen THEN "stale" ELSE Outcome(n, q, cache))
           /\ cache' = IF n = 1 \/ cache # "none" THEN cache ELSE Fill(q)
-          /\ UNCHANGED n
-Next == \E q \in Queries : Ask(q)
+          /\ cgen' = IF n = 1 \/ cache # "none" THEN cgen ELSE gen
+          /\ UNCHANGED <<n, gen>>
+\* BaseGHE.compute_g_functions: a NEW three-height family (min, mean, max of the current sizing window) in a NEW g-function
+\* object - the table cached in the old object goes with it
+Recompute == /\ Len(qs) < MaxQ - 1 /\ gen < 2
+             /\ n' = 3 /\ gen' = gen + 1 /\ cache' = "none" /\ cgen' = gen + 1
+             /\ qs' = Append(qs, "recompute") /\ outs' = Append(outs, "replaced") /\ ns' = Append(ns, n)
+Next == (\E q \in Queries : Ask(q)) \/ (WithRecompute /\ Recompute)
 Spec == Init /\ [][Next]_vars
 
 \* C11 : interpolating at a stored height returns the stored curve, whatever was asked before
 StoredHeightReturnsStoredCurve == \A i \in 1..Len(qs) : qs[i] \in Stored \cup Snapped => outs[i] = "stored"
+\* C11 : the table in use was built from the family the object holds now
+TableOfCurrentFamily == cache = "none" \/ cgen = gen
 \* C11 : queries inside the stored range do not depend on earlier queries
 InRangeIndependentOfHistory == \A i \in 1..Len(qs) : qs[i] \in Stored \cup Snapped \cup Inside => outs[i] \in {"stored", "interp"}
 \* unrepaired (F28): outside the stored range the answer depended on the FIRST query of the object's life
-OutsideDependsOnFirst == \A i \in 1..Len(qs) : (n > 1 /\ qs[i] \in Far \cup BelowTol) => (outs[i] = "extrap" <=> qs[1] \in Far)
+OutsideDependsOnFirst == \A i \in 1..Len(qs) : (ns[i] > 1 /\ gen = 0 /\ qs[i] \in Far \cup BelowTol) => (outs[i] = "extrap" <=> qs[1] \in Far)
 \* C13 / C11, repaired: a query outside the stored range extrapolates whatever was asked before
-OutsideIndependentOfHistory == \A i \in 1..Len(qs) : (n > 1 /\ qs[i] \in Far \cup BelowTol) => outs[i] = "extrap"
+OutsideIndependentOfHistory == \A i \in 1..Len(qs) : (ns[i] > 1 /\ qs[i] \in Far \cup BelowTol) => outs[i] = "extrap"
 
-Emit == Len(qs) = MaxQ => PrintT(ToJson([n |-> n, qs |-> qs, outs |-> outs, kind |-> Kind(n)]))
+Emit == Len(qs) = MaxQ => PrintT(ToJson([n |-> (IF ns = <<>> THEN n ELSE ns[1]), ns |-> ns, qs |-> qs, outs |-> outs, kind |-> Kind(n)]))
 =============================================================================
